@@ -182,6 +182,25 @@ def run(R):
             okr = False
             R.viol("C11.range", "range-missing:%s" % fn.split("::")[-1], "%s has no U256 range comparison fed by convert_distance_to_u256" % fn)
     R.inst("C11.range", "K10 polarity", "in-range tests are convert_distance_to_u256(distance) <= range", n, okr and n >= 3)
+    # ... and a peer's membership is decided pointwise, by its own distance alone: nothing in get_peers_in_range stops at, skips to or
+    # counts elements of the list it is given (seed C11-r6: `take_while(distance <= range)` returns the in-range *prefix* — the answer
+    # depends on the order of the slice, not on the metric)
+    ORDER_DEPENDENT = ("::take_while", "::skip_while", "::map_while", "::take", "::skip", "::step_by", "::nth", "::last", "::find", "::find_map", "::position", "::rev",
+                       "::first", "::split_first", "::split_last", "::split_at", "::windows", "::chunks", "::partition_point", "::binary_search_by", "::binary_search_by_key")
+    gp = F.item("ant_networking::cmd::get_peers_in_range")
+    bad = [(b, c) for b in gp for c in b.calls_raw if (c["ncallee"] or c["ngen"] or "").endswith(ORDER_DEPENDENT)]
+    brk = 0
+    from rules import loop_early_exits
+    for b in gp:
+        prep(b)
+        for nid, (starts, common, rb) in loop_early_exits(b).items():
+            if common:
+                brk += 1
+                R.viol("C11.range.pointwise", "loop-stops-early", "get_peers_in_range leaves its loop over the peers early: peers behind that point are never tested against the range", b, b.lines[0])
+    for b, c in bad:
+        R.viol("C11.range.pointwise", "order-dependent:%s" % (c["ncallee"] or c["ngen"]).split("::")[-1], "get_peers_in_range walks the peers through %s: which peers are returned depends on the order of the "
+               "list, not on each peer's distance alone" % (c["ncallee"] or c["ngen"]).split("::")[-1], b, c.get("l") or b.lines[0])
+    R.inst("C11.range.pointwise", "K1 forbidden callee", "get_peers_in_range decides each peer by its own distance (no order-dependent adaptor, no early exit)", sum(len(b.calls_raw) for b in gp), bool(gp) and not bad and not brk)
     # conversion is applied to the same two addresses that are being compared (target vs candidate)
     # (3) typed / raw byte source
     ab = R.body("C11.addr-table", "ant_protocol::NetworkAddress::as_bytes")
